@@ -22,6 +22,16 @@ struct VPtrL { int operator()(std::unique_ptr<long>) const; };
 struct VArrI { int operator()(std::unique_ptr<int[]>) const; };
 struct VStrU { int operator()(std::unique_ptr<char[]>) const; };
 struct VStrS { int operator()(std::string) const; };
+struct VC_int { int operator()(std::unique_ptr<int>) const; };
+struct VR_int { int operator()(std::unique_ptr<int[]>) const; };
+struct VC_long { int operator()(std::unique_ptr<long>) const; };
+struct VR_long { int operator()(std::unique_ptr<long[]>) const; };
+struct VC_unsigned_short { int operator()(std::unique_ptr<unsigned short>) const; };
+struct VR_unsigned_short { int operator()(std::unique_ptr<unsigned short[]>) const; };
+struct VC_unsigned_long { int operator()(std::unique_ptr<unsigned long>) const; };
+struct VR_unsigned_long { int operator()(std::unique_ptr<unsigned long[]>) const; };
+struct VC_char { int operator()(std::unique_ptr<char>) const; };
+struct VR_char { int operator()(std::unique_ptr<char[]>) const; };
 }}
 '''
 GH = PRE_GHOST + ''' unsigned long g_new_bytes; unsigned g_news; void *g_new_ptr;
@@ -147,9 +157,68 @@ def string_inst(kind, recv, tier):
                 note='strlen is an adversarial stub; %s verifier; receiver %s<char*>' % (kind, recv))
 
 
+# ---- content of the snapshot (sequential view, no adversary): what the verifier sees is the guest-ABI decoding of the source bytes
+GUEST = {'int': ('int', 'int', 4), 'long': ('long', 'int', 4), 'unsigned short': ('unsigned short', 'unsigned short', 2), 'unsigned long': ('unsigned long', 'unsigned int', 4), 'char': ('char', 'char', 1)}
+
+
+def content_ptr_inst(pointee, tier):
+    cty, gty, gb = GUEST[pointee]
+    tag = pointee.replace(' ', '_')
+    TT = cs('rlbox::tainted<%s *, rlbox::vsbx>' % pointee)
+    cl = [('obj', '__CPROVER_requires(__CPROVER_r_ok((const struct %s *)$this, sizeof(struct %s)) && g_vcalls == 0 && g_news == 0)' % (TT, TT)),
+          ('src', '__CPROVER_requires(((const struct %s *)$this)->data == 0 || (void *)((const struct %s *)$this)->data == g_src)' % (TT, TT)),
+          ('src_obj', '__CPROVER_requires(__CPROVER_r_ok(g_src, %d))' % gb),
+          ('verifier_runs_once_and_its_result_is_returned', '__CPROVER_ensures(g_vcalls == 1 && $ret == g_vret)'),
+          ('frame', '__CPROVER_assigns(g_vcalls, g_new_bytes, g_news, g_new_ptr)')]
+    h = MEM + ('  struct %s p; unsigned long in_off; _Bool in_null; __CPROVER_assume(in_off <= in_size - %d);\n'
+               '  g_src = mem + in_off; p.data = in_null ? (%s *)0 : (%s *)(mem + in_off);\n  struct S_VC_%s vf;\n  int r = $ROOT((void *)&p, vf);\n' % (TT, gb, cty, cty, tag))
+    req = '(arg == 0 ? g_null_src : (!g_null_src && (void *)arg == g_new_ptr && !__CPROVER_same_object(arg, g_sbx_mem) && MI(*arg) == MI(*(const %s *)g_src)))' % gty
+    stub = vstub('%s *arg' % cty, req).replace('verifier_gets_null_or_a_fresh_application_object', 'verifier_gets_the_guest_decoding_of_the_source_bytes')
+    h = h.replace('  struct S_VC_', '  g_null_src = in_null;\n  struct S_VC_')
+    return Inst('c09_content_ptr_%s' % tag, 'tainted<%s*, vsbx>& p, VC_%s verifier' % (pointee, tag), 'p.copy_and_verify(verifier);', cl, h,
+                leaves=['dynamic_check'], prop=PROP, root_name='copy_and_verify', tier=tier, pre=GH + ' void *g_src; _Bool g_null_src;\n', pre_defines=OBJVIEW, post_protos=stub,
+                opts={'param_fn_stubs': {'verifier': 'verifier_stub'}, 'amp_star': True}, extra_replace=['verifier_stub'],
+                note='pointee %s occupies %d guest bytes; every byte position in sandbox memory including the last %d bytes' % (pointee, gb, gb))
+
+
+def content_range_inst(el, tier):
+    cty, gty, gb = GUEST[el]
+    tag = el.replace(' ', '_')
+    TT = cs('rlbox::tainted<%s *, rlbox::vsbx>' % el)
+    cl = [('obj', '__CPROVER_requires(__CPROVER_r_ok((const struct %s *)$this, sizeof(struct %s)) && g_vcalls == 0 && g_news == 0 && V_BACKEND_WF)' % (TT, TT)),
+          ('ptr_inv', '__CPROVER_requires((uintptr_t)((const struct %s *)$this)->data == 0 || (V_IN(0, (uintptr_t)((const struct %s *)$this)->data) && (void *)((const struct %s *)$this)->data == g_src))' % (TT, TT, TT)),
+          ('sandbox_memory_is_one_object', '__CPROVER_requires(__CPROVER_r_ok(g_sbx_mem, V_SIZE[0]) && (unsigned long)g_sbx_mem == V_BASE[0] && V_SIZE[1] == 0 && V_SIZE[0] <= 4096 && __CPROVER_same_object(g_src, g_sbx_mem))'),
+          ('witness', '__CPROVER_requires(g_w < g_count)'),
+          ('verifier_runs_once_and_its_result_is_returned', '__CPROVER_ensures(g_vcalls == 1 && $ret == g_vret)'),
+          ('frame', '__CPROVER_assigns(g_vcalls, g_new_bytes, g_news, g_new_ptr, g_checked_bytes, g_checked_start)')]
+    lc = ('__CPROVER_assigns(i, __CPROVER_object_whole(target))\n'
+          '__CPROVER_loop_invariant(i <= $0)\n'
+          '__CPROVER_loop_invariant(g_w < i ==> MI(target[g_w]) == MI(((const %s *)g_src)[g_w]))\n'
+          '__CPROVER_decreases($0 - i)' % gty)
+    h = MEM + ('  struct %s p; unsigned long in_off; _Bool in_null; __CPROVER_assume(in_off < in_size);\n'
+               '  g_src = mem + in_off; p.data = in_null ? (%s *)0 : (%s *)(mem + in_off);\n  struct S_VR_%s vf; unsigned long in_count; g_count = in_count; unsigned long in_w; __CPROVER_assume(in_w < in_count); g_w = in_w;\n'
+               '  int r = $ROOT((void *)&p, vf, in_count);\n' % (TT, cty, cty, tag))
+    req = '(arg == 0 || ((void *)arg == g_new_ptr && !__CPROVER_same_object(arg, g_sbx_mem) && g_new_bytes == g_count * sizeof(%s) && MI(arg[g_w]) == MI(((const %s *)g_src)[g_w])))' % (cty, gty)
+    stub = vstub('%s *arg' % cty, req).replace('verifier_gets_null_or_a_fresh_application_object', 'verifier_gets_the_guest_decoding_of_every_element')
+    return Inst('c09_content_range_%s' % tag, 'tainted<%s*, vsbx>& p, VR_%s verifier, size_t n' % (el, tag), 'p.copy_and_verify_range(verifier, n);', cl, h,
+                leaves=['dynamic_check', CHECK_RANGE, 'vsbx.impl_is_in_same_sandbox'], prop=PROP, root_name='copy_and_verify_range', tier=tier,
+                pre=GH + ' unsigned long g_count; unsigned long g_w; void *g_src;\n', pre_defines=OBJVIEW, post_protos=stub,
+                opts={'param_fn_stubs': {'verifier': 'verifier_stub'}, 'amp_star': True}, extra_replace=['verifier_stub'], object_bits=12,
+                loop_contracts={('copy_and_verify_range_helper', 0): lc}, timeout=900,
+                note='element g_w is an arbitrary witness index: the loop invariant carries "every copied element equals the guest decoding of its source element"')
+
+
+def content_insts(tier):
+    ps = ['int', 'long', 'unsigned short'] if tier == 'quick' else list(GUEST)
+    rs = ['long'] if tier == 'quick' else ['long', 'int', 'char', 'unsigned long']
+    return [content_ptr_inst(p, tier) for p in ps] + [content_range_inst(r, tier) for r in rs]
+
+
 def units(tier):
     insts = [cav_ptr_inst('int', 'int', 4, tier), cav_ptr_inst('long', 'long', 4, tier), range_inst(tier),
-             string_inst('uptr', 'tainted', tier), string_inst('std', 'tainted', tier), string_inst('uptr', 'tainted_volatile', tier)]
+             string_inst('uptr', 'tainted', tier), string_inst('std', 'tainted', tier), string_inst('uptr', 'tainted_volatile', tier)] + content_insts(tier)
+    if tier != 'quick':
+        insts.append(string_inst('std', 'tainted_volatile', tier))
     return [Unit('C09_snapshots', insts, extra_cpp=EXTRA_CPP)]
 
 
